@@ -760,4 +760,7 @@ WITNESSES = [
      "new": "\t\tif ((sizeof(struct pdu_end_of_data_v0) == pdu->len) ||"},
     {"id": "C04.w14-wrong-element-size-for-ipv6-store", "rule": "C04.R9", "file": PK,
      "old": "rtr_store_prefix_pdu(rtr_socket, pdu, sizeof(*ipv6_pdus), (void **)&ipv6_pdus,", "new": "rtr_store_prefix_pdu(rtr_socket, pdu, sizeof(*ipv4_pdus), (void **)&ipv6_pdus,"},
+    {"id": "C04.w-convert-uses-network-order-length-as-offset", "rule": "C04.R3", "file": PK,
+     "old": "\t\t} else {\n\t\t\terr_pdu->len_enc_pdu = lrtr_convert_long(target_byte_order, err_pdu->len_enc_pdu);\n\t\t\t*((uint32_t *)(err_pdu->rest + err_pdu->len_enc_pdu)) = lrtr_convert_long(\n\t\t\t\ttarget_byte_order, *((uint32_t *)(err_pdu->rest + err_pdu->len_enc_pdu)));\n\t\t}",
+     "new": "\t\t} else {\n\t\t\t*((uint32_t *)(err_pdu->rest + err_pdu->len_enc_pdu)) = lrtr_convert_long(\n\t\t\t\ttarget_byte_order, *((uint32_t *)(err_pdu->rest + err_pdu->len_enc_pdu)));\n\t\t\terr_pdu->len_enc_pdu = lrtr_convert_long(target_byte_order, err_pdu->len_enc_pdu);\n\t\t}"},
 ]
